@@ -7,6 +7,7 @@ import (
 	"fmt"
 	"hash/fnv"
 	"os"
+	"runtime"
 	"runtime/debug"
 	"slices"
 	"sort"
@@ -485,6 +486,9 @@ func Run(k *report.Check) {
 
 var depthDone int
 
+// maxFrontier bounds the memory of the breadth-first search (about 20 kB per queued state).
+const maxFrontier = 300000
+
 func bfs(k *report.Check, name string, ss []setting, maxDepth int) *mc.Result {
 	start := mc.Wall()
 	res := &mc.Result{Name: name, Notes: map[string]int64{}, Exhaustive: true}
@@ -516,6 +520,12 @@ func bfs(k *report.Check, name string, ss []setting, maxDepth int) *mc.Result {
 		return ops
 	}
 	for depth := 1; depth <= maxDepth && len(frontier) > 0; depth++ {
+		if len(frontier) > maxFrontier {
+			// every queued state holds its tables in memory: a larger frontier is not expanded
+			res.Exhaustive = false
+			res.Notes["frontier_states_not_expanded_memory_cap"] = int64(len(frontier))
+			break
+		}
 		var next []*node
 		var wg sync.WaitGroup
 		idx := int64(-1)
@@ -612,6 +622,17 @@ func bfs(k *report.Check, name string, ss []setting, maxDepth int) *mc.Result {
 						stop = true
 						res.Exhaustive = false
 						mu.Unlock()
+					}
+					if i%4096 == 0 {
+						var ms runtime.MemStats
+						runtime.ReadMemStats(&ms)
+						if ms.HeapAlloc > 16<<30 {
+							mu.Lock()
+							stop = true
+							res.Exhaustive = false
+							res.Notes["stopped_at_heap_cap_gb"] = int64(ms.HeapAlloc >> 30)
+							mu.Unlock()
+						}
 					}
 				}
 			}()
